@@ -85,7 +85,7 @@ CLAIMED["C17"] = dict(
     text="Kernel-checked theorems over a model of --filescraping_recovery (md5/sha1 indexes with last-row-wins, recognition rule, last write "
          "wins): for every scraped list of contents (names/nesting are never read, so every renaming is covered) the output holds, at each "
          "recorded path whose content was found, exactly that content with the recorded mtime, and nothing for unknown/damaged files; complete "
-         "scrape => original tree. Under distinct recorded contents and no md5/sha1 collision (explicit). Tied to /repo by real recoveries. csv layer: C05_csv_roundtrip, C05_db_roundtrip (the database is read back exactly whatever characters the recorded paths hold), C05_db_file_roundtrip; recorded paths are root-independent and pairwise distinct (PATH_gen_root_independent, PATH_relFS_nodup).",
+         "scrape => original tree. Under distinct recorded contents and no collision of the (md5, sha1) PAIR (explicit; two recorded files may share one of the two hashes - the defect repaired in 1e7a934, regression witness C17_md5_twins_recovered). Tied to /repo by real recoveries. csv layer: C05_csv_roundtrip, C05_db_roundtrip (the database is read back exactly whatever characters the recorded paths hold), C05_db_file_roundtrip; recorded paths are root-independent and pairwise distinct (PATH_gen_root_independent, PATH_relFS_nodup).",
     design="§6 C17", technique="Lean 4 proof (list/index reasoning) + model/implementation correspondence on real scraped folders",
     note="Trusted: Lean kernel and standard axioms; model validated by sampling; no-collision hypothesis explicit; copy2/utime/makedirs exercised.")
 
